@@ -7,9 +7,15 @@ pub trait TryIntoValue: Sized {
 }
 /// the crate's own traits, re-declared with one woven ghost item each so that generic impls can be verified once for all T
 pub trait FromValue: Sized {
-    spec fn fv_spec(v: Value) -> Result<Self, ExecutionError>;
+    /// what converting `v` into Self may return (a relation: error payloads carry formatted text)
+    spec fn fv_post(v: Value, r: Result<Self, ExecutionError>) -> bool;
     fn from_value(value: &Value) -> (r: Result<Self, ExecutionError>)
-        ensures r == Self::fv_spec(*value);
+        ensures Self::fv_post(*value, r);
+}
+/// Debug text of a value on an error path (core::fmt): R6 wrapper
+#[verifier::external_body] pub fn __debug_value(e: &Value) -> String { unimplemented!() }
+pub open spec fn this_lift<T>(x: Result<T, ExecutionError>) -> Result<This<T>, ExecutionError> {
+    match x { Ok(t) => Ok(This(t)), Err(e) => Err(e) }
 }
 pub trait Resolver {
     /// what a resolver may return for a function context (relation: the evaluator is specified by refinement)
